@@ -354,6 +354,33 @@ Proof.
 Qed.
 Print Assumptions C15_kriging_solution.
 
+(* Any iterative solver that meets its contract - a residual of at most rho on every component, WHATEVER ITS INITIAL GUESS - returns
+   the solution z of A z = b within rho x (absolute row sum of A^-1), and two runs from two guesses differ by at most twice that.
+   With C15_kriging_solution (the solution exists and is unique) this is why every solve entry point - cold or warm started,
+   conjugate gradient or Cholesky - must return the same vector up to its tolerance; the check compares each of them with the
+   exact solution of the model, using this bound (|A^-1| computed from the harvested system). *)
+Theorem C15_solution_independent_of_guess : forall n A B b z (solver : fvec -> fvec) rho,
+  finv n A B -> (forall k, (k < n)%nat -> fmv n A z k == b k) ->
+  (forall guess k, (k < n)%nat -> Qabs (fmv n A (solver guess) k - b k) <= rho) ->
+  forall g1 g2 i, (i < n)%nat ->
+    Qabs (solver g1 i - z i) <= rho * sumn n (fun j => Qabs (B i j)) /\
+    Qabs (solver g1 i - solver g2 i) <= 2 * rho * sumn n (fun j => Qabs (B i j)).
+Proof. exact solution_independent_of_guess. Qed.
+Print Assumptions C15_solution_independent_of_guess.
+(* non-vacuity: A = diag(2, 4), B = diag(1/2, 1/4), b = (2, 4), z = (1, 1); a "solver" adding guess/8 (capped contract rho = 1/2 on
+   guesses in [-1, 1] is not needed: the constant solver z meets the contract with rho = 0) *)
+Example C15_solution_independent_of_guess_nonvacuous :
+  let A := fun i j => if Nat.eqb i j then (if Nat.eqb i 0 then 2 else 4) else 0 in
+  let B := fun i j => if Nat.eqb i j then (if Nat.eqb i 0 then 1 # 2 else 1 # 4) else 0 in
+  finv 2 A B /\ (forall k, (k < 2)%nat -> fmv 2 A (fun _ => 1) k == (if Nat.eqb k 0 then 2 else 4)) /\
+  (forall (guess : fvec) k, (k < 2)%nat -> Qabs (fmv 2 A ((fun _ _ => 1) guess) k - (if Nat.eqb k 0 then 2 else 4)) <= 0).
+Proof.
+  cbv zeta. split; [|split].
+  - intros i j Hi Hj. destruct i as [|[|?]]; try lia; destruct j as [|[|?]]; try lia; vm_compute; split; reflexivity.
+  - intros k Hk. destruct k as [|[|?]]; try lia; vm_compute; reflexivity.
+  - intros guess k Hk. destruct k as [|[|?]]; try lia; vm_compute; discriminate.
+Qed.
+
 (* ================================================================== ProjConvolution *)
 
 (* the vertical convolution and its transpose are adjoint as soon as every shifted index falls in the vertex vector *)
